@@ -21,6 +21,8 @@ CONSTANTS Callers,            \* set of caller goroutines (one request each)
           AllowRdFail, AllowWrFail,
           AllowCancel,        \* callers may give up waiting (context cancelled) while their request is outstanding
           ChanCap1,           \* result channels have capacity >= 1 (sendPacket replaces an unbuffered channel)
+          SendErrToRegistered,\* a failed write is reported on the channel taken back from `inflight` (after broadcastErr: the throw-away
+                              \* channel), not on the caller's own channel, which may already hold the broadcast result
           KeepSlotOnCancel    \* a cancelled call leaves its in-flight slot registered until the reply arrives
 
 VARIABLES pc,        \* caller -> "start"|"gotid"|"registered"|"hdr"|"sent"|"done"
@@ -128,7 +130,7 @@ SendFails(c) ==
   /\ wlock' = IF wlock = c THEN "free" ELSE wlock
   /\ recvPc # "bcast"                       \* getChannel needs the inflight mutex
   /\ IF id[c] \in Dom(inflight)
-       THEN LET ch == inflight[id[c]] IN
+       THEN LET ch == IF SendErrToRegistered THEN inflight[id[c]] ELSE c IN
             /\ inflight' = IF DeleteOnGet THEN Del(inflight, id[c]) ELSE inflight
             /\ IF SendErrDelivered
                  THEN CanSend(ch) /\ Send(ch, R("senderr", 0))
